@@ -17,19 +17,19 @@ check("C16", "model_checking",
       "explicit-state BFS (closure) + pre-emption-bounded schedule enumeration of real threads", "DESIGN.md §2 C16", "E4+E5")
 
 check("C01", "fault_enumeration",
-      "Real async and threaded transfer code against the real simulator on an in-memory network: all 524,800 (start,length) pairs at chain level, the client path for a large subset (thorough: every pair), ALL fate vectors {deliver,drop,dup,delay-past-successor,delay-into-next-attempt} over request+segments of 1-3 segment transfers, deviation-bounded fate vectors on the 27-segment transfer with the configured retry count, and stationary adversaries; oracle = installed bytes/untouched block/request budget.",
-      "One pattern block (neighbouring 39-byte slices differ) with the complement as client block - the transfer code only slices and joins; delays shorter than the gap between transfers; virtual time.",
+      "Real async and threaded transfer code against the real simulator on an in-memory network: all 524,800 (start,length) pairs at chain level, the client path for a large subset (thorough: every pair), ALL fate vectors {deliver,drop,dup,delay-past-successor,delay-into-next-attempt} over request+segments of 1-3 segment transfers, deviation-bounded fate vectors on the 27-segment transfer with the configured retry count, stationary adversaries, two-transfer sequences, and block contents carrying every framing/verb delimiter at every alignment inside a segment; oracle = installed bytes/untouched block/request budget.",
+      "One pattern block (neighbouring 39-byte slices differ, all byte values) with the complement as client block plus the delimiter blocks - beyond those the transfer code only slices and joins; delays shorter than the gap between transfers; virtual time.",
       "exhaustive fate-vector enumeration + deviation-bounded fault injection on the real transfer code", "DESIGN.md §2 C01", "E1+E2+E3")
 check("C05", "model_checking",
-      "All histories (stateless, fresh really-connected client per history) up to depth 3/4 over a 13-event alphabet of partial updates (0-3 records, overlapping/repeated positions, 1-byte record, back-to-back messages), refreshes served by the real simulator and a partial update landing mid-refresh; async and threaded clients; lock-step with a sequentially updated reference block; exactly one protocol-range STATQ per STATP.",
+      "All histories (stateless, fresh really-connected client per history) up to depth 3/4 over a 13-event alphabet of partial updates (0-3 records, overlapping/repeated positions, 1-byte record, back-to-back messages), refreshes served by the real simulator a partial update landing mid-refresh, and histories that BEGIN with a partial update inside the handshake (after every client datagram x delays); async and threaded clients; lock-step with a sequentially updated reference block; exactly one protocol-range STATQ per STATP.",
       "positions/values from a small set (handlers treat them opaquely); refresh window of the default snapshot's tables.",
       "exhaustive bounded-depth history enumeration against a reference model", "DESIGN.md §2 C05", "E1+E2")
 check("C06", "model_checking",
-      "Real protocol.get/lock/wait_for_response of a connected client: 1-3 concurrent callers x arrival offsets x retry counts, ALL reply-fate vectors {deliver,drop,late}, unsolicited noise near timeouts, timer-order (polling jitter) deviations; oracle on datagrams + wait intervals (attempts<=R, fresh request per attempt, one in flight, FIFO service, result iff reply, completion bound). Gates: every gated API invoked on a tick grid around the moment the spa stops answering pings.",
+      "Real protocol.get/lock/wait_for_response of a connected client: 1-3 concurrent callers x arrival offsets x retry counts, ALL reply-fate vectors {deliver,drop,late}, unsolicited noise near timeouts, reply latencies on a 50 ms grid inside the time-out, timer-order (polling jitter) and timer-batch deviations with a third caller swept over three polling periods; oracle on datagrams + wait intervals (attempts<=R, fresh request per attempt, one in flight, FIFO service, result iff reply, completion bound). Gates: every gated API invoked on a tick grid around (and long after) the moment the spa stops answering pings, in the idle and in the active configuration.",
       "wait intervals observed via a harness-installed wrapper of wait_for_response; virtual time; simulator as responder. The check-then-act gate defect is a recorded known finding.",
       "exhaustive fate-vector + bounded schedule-deviation exploration of the real request engine", "DESIGN.md §2 C06", "E1+E2+E3")
 check("C07", "model_checking",
-      "Connected client with all five consumers (queue wrapped from outside, handshake included): all arrival sequences up to length 3 over a 13-datagram alphabet (known, unknown, unsolicited, mis-addressed, malformed framing) x relative offsets x active waiter, plus timer-order deviations; each item popped exactly once by unhandled or an accepting consumer, head residence <= 3 polls, mis-addressed content never re-queued, no effect on block/events/observers.",
+      "Connected client with all five consumers (queue wrapped from outside, handshake included): all arrival sequences up to length 3 over a 13-datagram alphabet (known, unknown, unsolicited, mis-addressed, malformed framing) x relative offsets x active waiter (none, ping, status block, a ping whose first attempt is lost with arrivals on a 20 ms grid around its time-out and retry instants), slow client callbacks, plus timer-order/batch deviations; each item popped exactly once by unhandled or an accepting consumer, head residence <= 3 polls, mis-addressed content never re-queued, no effect on block/events/observers.",
       "well-formed payloads for known verbs (malformation at framing level, as the property says).",
       "exhaustive bounded arrival-sequence enumeration + bounded schedule deviations on the real dispatch code", "DESIGN.md §2 C07", "E1+E2+E3")
 
@@ -38,19 +38,19 @@ check("C08", "model_checking",
       "environment injected at the discover/_connect seams (as tests/test_spaman.py does); light facade that fails exactly when the real constructor must; state canonicalisation documented in props/c08.py.",
       "explicit-state BFS over real objects (rebuild-and-replay) to closure, reference-table lock-step", "DESIGN.md §2 C08", "E4 on E1")
 check("C09", "fault_enumeration",
-      "Whole async stack against the real simulator in virtual time: fault scripts (start point x up to 3 phases from {blackout, RF-error, lossy} x durations) and user reset/set_spa_info injected at EVERY loop step of the baseline connection (+ timer-order deviations); bounded liveness: CONNECTED within B virtual seconds of the network being healthy with the client block mirroring the spa, unreachable spa reported in time, sequence pump never ends.",
+      "Whole async stack against the real simulator in virtual time: fault scripts (start point x up to 3 phases from {blackout, RF-error, lossy(every 2nd request / STATU+CURCH / all pings)} x durations, connections made under loss followed by a long blackout, plain and yielding client handlers) and user reset/set_spa_info injected at EVERY loop step of the baseline connection (+ timer-order deviations); bounded liveness: CONNECTED within B virtual seconds of the network being healthy with the client block mirroring the spa, unreachable spa reported in time, sequence pump never ends.",
       "bound derived from the idle GeckoConfig; network healthy for ever after the script; two recorded known findings (ERROR_SPA_NOT_FOUND terminal, reset in the last steps of a connection attempt).",
       "exhaustive crash-point injection + enumerated fault scripts on the real stack (bounded liveness)", "DESIGN.md §2 C09", "E1+E2+E3")
 check("C10", "fault_enumeration",
-      "Whole async stack: async_reset and context exit injected at every loop step through discovery/handshake/early steady state and a stride through the periodic tail, blackout and error states (+ first steps of every state, timer deviations, reconnect cycles); every endpoint/task existing at the injection must be closed/done promptly, late datagrams to old endpoints must not reach client observers, resources must not grow over cycles.",
+      "Whole async stack: async_reset and context exit injected at every loop step through discovery/handshake/early steady state and a stride through the periodic tail, blackout and error states (+ first steps of every state, RF-error/slow-client, yielding-client, failed-send and corrupted-config-file baselines, the library's own ping-triggered resets, timer deviations before the injection, reconnect cycles); every endpoint/task existing at the injection must be closed/done promptly, late datagrams to old endpoints must not reach client observers, resources must not grow over cycles.",
       "endpoints = VTransports handed out by the harness loop; 'promptly' = 5 virtual s (12 s for a discovery legitimately in progress); known finding: context exit leaves the spa endpoint open.",
       "exhaustive crash-point injection with resource accounting on the real stack", "DESIGN.md §2 C10", "E1+E2+E3")
 check("C15", "model_checking",
-      "Real GeckoAsyncLocator.discover against scripted responders: all spa sets of size 0..3 from a pool with '|', latin-1 and empty names x per-spa latency from a 6-value grid around the initial wait and the timeout x reply multiplicity x 5 filter modes, plus timer-order deviations <=2; oracle on the listed descriptors, the return time, endpoint closure and helper tasks.",
-      "responders answer every broadcast; replies built by a reference encoder.",
+      "Real GeckoAsyncLocator.discover against scripted responders: all spa sets of size 0..3 from a pool with '|', latin-1 and empty names x per-spa latency from a 6-value grid around the initial wait and the timeout x reply multiplicity x loss of the first 1..2 replies of one spa x 5 filter modes, plus timer-order/batch deviations <=2; oracle on the listed descriptors, the return time, endpoint closure and helper tasks.",
+      "responders answer every broadcast they hear; replies built by a reference encoder; a spa that lost only its first reply must be listed by a run that lasts the initial wait.",
       "exhaustive scenario enumeration + bounded schedule deviations on the real locator", "DESIGN.md §2 C15", "E1+E2+E3")
 check("C17", "model_checking",
-      "Real config_sleep/set_config_mode on the virtual loop: all switch sequences up to length 4 (table completeness), up to 3 sleepers x delays x starts x up to 2 switches on a common time grid with EVERY order of simultaneous timers; real connected facades of 5 snapshot configurations through every on/off combination of pumps and blowers.",
+      "Real config_sleep/set_config_mode on the virtual loop: all switch sequences up to length 4 (table completeness), up to 3 sleepers x delays x starts x up to 2 switches on a common time grid, looping sleepers, with EVERY order of simultaneous timers and (deviation-bounded) asyncio's batching of simultaneous timers; real connected facades of 5 snapshot configurations through every on/off combination of pumps and blowers.",
       "a switch before any sleeper ever ran trips the library's own assert and is excluded; early wake-ups are not excluded by the statement and not reported.",
       "exhaustive enumeration of sleeper/switch plans with all tie orders (unbounded deviations)", "DESIGN.md §2 C17", "E1+E3")
 
@@ -59,7 +59,7 @@ check("C02", "exploration",
       "background outside the field: seed-chosen pattern; shapes that exist only read-only are tested for refusal only.",
       "exhaustive input enumeration per shape + per-item binding sweep against a reference codec", "DESIGN.md §2 C02", "E6")
 check("C03", "model_checking",
-      "Real replace_status_block_segment/status_block_changed on both structure classes: per shape every patch geometry around the item x ALL 256^2 old/new contents of the patched byte (boundary sets for the rest), every shipped table through a full refresh and a changing + non-changing patch of every byte, and a BFS to closure over watch/unwatch/update histories; oracle = reference decode of old/new blocks, callback count/arguments, block already swapped in every callback.",
+      "Real replace_status_block_segment/status_block_changed on both structure classes: per shape every patch geometry around the item x ALL 256^2 old/new contents of the patched byte (boundary sets for the rest), every shipped table through a full refresh and a changing + non-changing patch of every byte, a BFS to closure over watch/unwatch/update histories incl. watch/unwatch calls made from inside a notification, and refreshes through the real transfer code of both clients with 2-byte items on every segment boundary; oracle = reference decode of old/new blocks, callback count/arguments, block already swapped in every callback.",
       "quick tier does the full 256^2 sweep on the blocking structure at the shipped position and boundary pairs on the edge twins / awaitable structure; thorough does all.",
       "exhaustive update enumeration against a reference decoder + explicit-state BFS of observer lists", "DESIGN.md §2 C03", "E4+E6")
 check("C04", "exploration",
@@ -68,14 +68,14 @@ check("C04", "exploration",
       "exhaustive field-domain enumeration against a reference codec", "DESIGN.md §2 C04", "E6")
 check("C11", "exploration",
       "All 895 platform x config x log combinations: real async and blocking facades constructed on zeros/ones/every shipped snapshot + complement/random blocks, every public read-only member evaluated; every byte the API reads swept through all 256 contents (wiring bytes: every label index + out-of-range boundaries), coupled-item sweeps, all watercare bytes and reminder lists; no exception, out-of-range enums read 'Unknown'.",
-      "facades built on a stand-in spa exposing the real structure/accessors; quick tier sweeps bytes on one cfg per log version and one log per cfg version of each platform; 18 unconstructible combinations are recorded known findings.",
+      "facades built on a stand-in spa exposing the real structure/accessors; byte sweeps run on the 139 combinations that cover every cfg and every log version of each platform (thorough: all 256 contents, both sweeps), the block set on all 895; 18 unconstructible combinations are recorded known findings.",
       "exhaustive configuration enumeration + one-field-exhaustive input sweeps", "DESIGN.md §2 C11", "E6")
 check("C12", "exploration",
-      "Output wirings written through the reference codec on platform x config x log combinations (every single assignment, label pairs on the two richest outputs, same-device H/L variants on every output pair, all-same-label, empty, snapshot wirings); real async and blocking facades compared with an independent recomputation of the inventory (devices in table order, classes, demand items, modes, sensors, unique keys, lookup); blocking facade under PYTHONHASHSEED 0..15.",
+      "Output wirings written through the reference codec on platform x config x log combinations (every single assignment, label pairs on the two richest outputs, same-device H/L variants on every output pair, all-same-label, empty, snapshot wirings); real async and blocking facades compared with an independent recomputation of the inventory (devices in table order, classes, demand items, modes, sensors, unique keys, lookup); one long-lived blocking facade per combination re-scanned on every block (non-initial states); blocking facade under PYTHONHASHSEED 0..15.",
       "quick: every cfg with the latest log and every log with the latest cfg; thorough: all 895.",
       "exhaustive wiring enumeration against an independent inventory model", "DESIGN.md §2 C12", "E6")
 check("C13", "model_checking",
-      "Whole async stack really connected to a spa model (real simulator + applies writes/key presses, follows demands, stores watercare mode, echoes STATP): every device x every current state x every argument (+ command pairs); blocking facade on the stepped engine; exactly one well-formed command (none when already there), pack type/versions/position/value/sequence range decoded by the reference codec, spa-side effect and client read-back after the echo.",
+      "Whole async stack really connected to a spa model (real simulator + applies writes/key presses, follows demands, stores watercare mode, echoes STATP): every device x every current state x every argument (+ command pairs, + commands issued at every phase of the client's own background GETWC/REQRM/STATU/APING requests); blocking facade on the stepped engine; exactly one well-formed command (none when already there), pack type/versions/position/value/sequence range decoded by the reference codec, spa-side effect and client read-back after the echo.",
       "the spa's reaction to commands is modelled (documented in props/c13.py); the ping-gate drop after a mode switch is a recorded known finding.",
       "exhaustive command enumeration on the real stack against a spa model", "DESIGN.md §2 C13", "E1+E2")
 check("C14", "exploration",
@@ -83,15 +83,15 @@ check("C14", "exploration",
       "heater built on a stand-in facade over the real tables.",
       "exhaustive value-domain enumeration", "DESIGN.md §2 C14", "E6")
 check("C18", "exploration",
-      "Complete enumeration of the shipped table set (164 modules, ~20,500 items): geometry from the raw declarations (inside block, bit field inside bytes, labels representable), advertised keys resolve, module name/version/config-file naming round trip, item-by-item comparison with the layout pinned under /verif/pins.",
+      "Complete enumeration of the shipped table set (164 modules, ~20,500 items): geometry from the raw declarations (inside block, bit field inside bytes, labels representable), advertised keys resolve, module name/version/config-file naming round trip, item-by-item comparison with the layout pinned under /verif/pins, effective writability, both clients' real table lookup for every platform x cfg x log, and the published layouts on long-lived structures that carried other tables before.",
       "finite configuration space enumerated completely, not behaviours; two table-data defects are recorded known findings.",
       "exhaustive enumeration of a finite table set + golden layout comparison", "DESIGN.md §2 C18", "E6")
 check("C19", "exploration",
-      "Real GeckoShell.do_snapshot through the shell's log format parsed back (every byte value at every position class, version tuples, pack names, snapshot names over a token alphabet); DEBUG traffic log of the real blocking handshake for every simulator segment size 4..255 and STATV contents over all strings <=3/4 from the quote/escape alphabet reassembled by the parser; every shipped snapshot loaded into the simulator and served to a real async client.",
+      "Real GeckoShell.do_snapshot through the shell's log format parsed back (every byte value at every position class, version tuples, pack names, snapshot names over a token alphabet); DEBUG traffic log of the real blocking handshake for every simulator segment size 4..255 and STATV contents over all strings <=3/4 from the quote/escape alphabet reassembled by the parser; every shipped snapshot loaded into the simulator and served to a real async client (incl. its periodic refresh), and served with the simulator's own loss model on (its random draws as choice points, all vectors / deviation-bounded, both clients).",
       "scratch log files under /tmp, removed after each case.",
       "exhaustive input enumeration of the capture/parse round trip", "DESIGN.md §2 C19", "E6 + stepped engine")
 check("C20", "model_checking",
-      "Real GeckoUdpSocket._thread_func stepped in virtual time: all registration orders x all datagram sequences <=3 with raising handlers; all (T, N, reply point) retry cases; all enqueue patterns of <=4 sends under fast incoming traffic; handshake of the blocking client vs the real simulator under every loss vector from a grid (+ budget exhaustion); queue_send from two real threads vs the send step under the controlled scheduler, pre-emption bounded.",
+      "Real GeckoUdpSocket._thread_func stepped in virtual time: all registration orders x all datagram sequences <=3 with raising handlers and every subset of handlers being pending requests; all (T, N, reply point) retry cases incl. long budgets and requests behind a send backlog; all enqueue patterns of <=4 sends (distinct and repeated handler objects) under fast incoming traffic; handshake of the blocking client vs the real simulator under every loss vector from a grid (+ budget exhaustion); queue_send and handler-list cleanup vs add_receive_handler from real threads under the controlled scheduler, pre-emption bounded.",
       "engine iterations stepped deterministically; real threads only for the queue check (GIL, line-level switches).",
       "exhaustive scenario enumeration on the stepped engine + pre-emption-bounded thread schedules", "DESIGN.md §2 C20", "stepped engine + E5")
 
@@ -109,7 +109,7 @@ def main():
             "add_only": True,
         },
         "engines": [
-            {"name": "E1 VLoop", "path": "geckomc/vloop.py", "kind_free_text": "deterministic virtual-time asyncio loop; timer-order choice points; replayable choice traces"},
+            {"name": "E1 VLoop", "path": "geckomc/vloop.py", "kind_free_text": "deterministic virtual-time asyncio loop; timer-order and timer-batch choice points; replayable choice traces"},
             {"name": "E2 VNet", "path": "geckomc/vnet.py", "kind_free_text": "in-memory UDP with per-datagram fate choice points; real GeckoSimulator as peer (geckomc/peers.py)"},
             {"name": "E3 explore", "path": "geckomc/explore.py", "kind_free_text": "stateless deviation-bounded DFS over choice sequences, parallel, iterative bounding"},
             {"name": "E4 BFS", "path": "geckomc/props/c08.py", "kind_free_text": "explicit-state BFS over real objects (state = event history, rebuild-and-replay, canonical hashing), closure"},
